@@ -147,6 +147,28 @@ def handle (toks : List String) : Option String :=
       pure (fmt r first log ++
         (if creatorDone then " c0=" ++ showRes r ++ "@" ++ toString t1 else " c0=cancelled") ++
         " j=" ++ showRes r ++ "@" ++ toString t2)
+  | "share" :: evToks => do
+    -- `share <ev>...`, ev = s<X> | d<X> | p<X> (X ∈ A..D) | r<k> (k ∈ 1..8); a task is started at most once
+    if evToks.isEmpty || evToks.length > 24 then none
+    let evs ← evToks.mapM fun t => match t.toList with
+      | [k, c] =>
+        let task := fun (c : Char) => if 'A' ≤ c ∧ c ≤ 'D' then some (c.toNat - 'A'.toNat) else none
+        (match k with
+        | 's' => (task c).map SEv.start
+        | 'd' => (task c).map SEv.drop
+        | 'p' => (task c).map SEv.poll
+        | 'r' => if '1' ≤ c ∧ c ≤ '8' then some (SEv.release (c.toNat - '0'.toNat)) else none
+        | _ => none)
+      | _ => none
+    let starts := evs.filterMap fun e => match e with | .start x => some x | _ => none
+    if starts.eraseDups.length != starts.length then none
+    let s := Share.run {} evs
+    let name := fun (x : Nat) => String.singleton (Char.ofNat (x + 'A'.toNat))
+    let served := if s.served.isEmpty then "-" else
+      ",".intercalate (s.served.map fun (x, l) => name x ++ ":" ++ toString l)
+    let alive := (List.range 4).filter fun x => s.tasks.any fun t => t.id == x
+    let waiting := if alive.isEmpty then "-" else ",".intercalate (alive.map name)
+    pure ("ex=" ++ toString s.started ++ " served=" ++ served ++ " waiting=" ++ waiting)
   | "seq" :: strat :: ncr :: tms :: att :: m :: gap :: srvToks => do
     let strategy ← (match strat with
       | "user" => some Strategy.user | "rr" => some Strategy.rr | _ => none)
